@@ -131,6 +131,10 @@ func ParsePrepareStatementResponse(data []byte) (*PrepareStatementResponse, erro
 	return resp, nil
 }
 
+// fixedColumnDefinitionTailSize is the size of the fixed-length fields that follow the
+// length-encoded strings of a column definition packet
+const fixedColumnDefinitionTailSize = 1 + 2 + 4 + 1 + 2 + 1 + 2
+
 // ParseResultField parses binary field and returns ColumnDescription
 func ParseResultField(packet *Packet, mariaDBExtendedTypeInfo bool) (*ColumnDescription, error) {
 	field := &ColumnDescription{}
@@ -190,6 +194,9 @@ func ParseResultField(packet *Packet, mariaDBExtendedTypeInfo bool) (*ColumnDesc
 	//       int<1> data type: 0x00:type, 0x01: format
 	//       string<lenenc> value
 	if mariaDBExtendedTypeInfo {
+		if pos >= len(packet.data) {
+			return nil, base.ErrMalformPacket
+		}
 		if packet.data[pos] == 0 {
 			// skip length byte
 			pos++
@@ -199,10 +206,18 @@ func ParseResultField(packet *Packet, mariaDBExtendedTypeInfo bool) (*ColumnDesc
 				return nil, err
 			}
 			// currently we dont need to take a look on extended info, so just grab it as is
+			if num >= uint64(len(packet.data)-pos) {
+				return nil, base.ErrMalformPacket
+			}
 			offset := int(num + 1)
 			field.ExtendedTypeInfo = packet.data[pos : pos+offset]
 			pos += offset
 		}
+	}
+
+	// the fixed-size tail: 0x0C marker, charset[2], column length[4], type[1], flags[2], decimals[1], filler[2]
+	if len(packet.data)-pos < fixedColumnDefinitionTailSize {
+		return nil, base.ErrMalformPacket
 	}
 
 	//skip 0x0C constant field
@@ -246,7 +261,7 @@ func ParseResultField(packet *Packet, mariaDBExtendedTypeInfo bool) (*ColumnDesc
 		}
 		pos += n
 
-		if pos+int(field.DefaultValueLength) > len(packet.data) {
+		if field.DefaultValueLength > uint64(len(packet.data)-pos) {
 			log.WithField(logging.FieldKeyEventCode, logging.EventCodeErrorProtocolProcessing).Errorln("Incorrect position, malformed packet")
 			err = base.ErrMalformPacket
 			return nil, err
